@@ -100,6 +100,38 @@ def gen_upatch(rng, pad=None):
     return "upatch pad=%d sp=%s sw=%s" % (pad, ",".join(str(p) for p in ptrs), ";".join(tables))
 
 
+def gen_uqsort(rng, n=None, kind=None):
+    """the real quickSort on n elements over a small value domain with a comparison TABLE: a strict order (distinct or
+    repeated values), reversed / already sorted input, or an arbitrary (inconsistent) table - the model mirrors the
+    code, so both must agree for every table; the oracle demands a permutation always and sortedness for orders"""
+    n = rng.choice([0, 1, 2, 3, rng.range(4, 12), rng.range(12, 60), rng.range(60, 200)]) if n is None else n
+    m = rng.range(1, 12)
+    kind = rng.weighted([("order", 5), ("reverse-order", 1), ("preorder", 2), ("random", 3), ("const", 1)]) if kind is None else kind
+    rank = rng.shuffle(list(range(m)))
+    if kind == "preorder":
+        rank = [r // 2 for r in rank]            # ties between different values
+    tab = []
+    for x in range(m):
+        for y in range(m):
+            if kind in ("order", "preorder", "reverse-order"):
+                tab.append("-" if rank[x] < rank[y] else "+" if rank[x] > rank[y] else "0")
+            elif kind == "const":
+                tab.append("-")
+            else:
+                tab.append(rng.choice("-0+"))
+    shape = rng.below(4)
+    if shape == 0 and kind in ("order", "preorder", "reverse-order"):
+        by = sorted(range(m), key=lambda v: rank[v])
+        v = sorted((rng.below(m) for _ in range(n)), key=lambda x: by.index(x))
+        if kind == "reverse-order":
+            v.reverse()
+    elif shape == 1:
+        v = [rng.below(m)] * n
+    else:
+        v = [rng.below(m) for _ in range(n)]
+    return "uqsort sz=%d m=%d v=%s c=%s" % (rng.choice([4, 8, 10]), m, ",".join(str(x) for x in v) or "-", "".join(tab))
+
+
 def gen_utimes(rng, cid):
     b = rng.range(100, 200)
     f = rng.choice([b - 1, b, b + 1, rng.range(50, 250), None])
@@ -484,8 +516,10 @@ def sys_case(rng, cid, steps=None, nprog=None, big=False, script=None, mode=None
 def unit_case(rng, cid):
     L = []
     for _ in range(rng.range(3, 8)):
-        k = rng.weighted([("usort", 6), ("ureloc", 1), ("upatch", 4), ("utimes", 1)])
-        if k == "usort":
+        k = rng.weighted([("usort", 6), ("ureloc", 1), ("upatch", 4), ("utimes", 1), ("uqsort", 4)])
+        if k == "uqsort":
+            L.append(gen_uqsort(rng))
+        elif k == "usort":
             L.append(gen_usort(rng))
         elif k == "ureloc":
             L.append(gen_ureloc(rng))
@@ -511,6 +545,11 @@ def boundary():
                                 "upatch pad=33000 sp=4096,8192,100 sw=0:10,1:11,2:12",
                                 "upatch pad=32767 sp=4096,8192,100 sw=2:10,1:11,0:12;-",
                                 "upatch pad=0 sp=1 sw=-"]))
+    B.append(E.Case("b-qsort", ["uqsort sz=4 m=1 v=- c=0", "uqsort sz=8 m=1 v=0 c=0", "uqsort sz=10 m=2 v=1,0 c=0-+0",
+                                "uqsort sz=10 m=2 v=0,1 c=0-+0", "uqsort sz=8 m=3 v=2,0,1,0 c=0--+0-++0",
+                                "uqsort sz=8 m=3 v=2,2,2,2,2 c=0--+0-++0", "uqsort sz=8 m=2 v=0,1,0,1,0,1 c=----",
+                                "uqsort sz=8 m=2 v=0,1,0,1,0,1 c=++++", "uqsort sz=4 m=2 v=1,1,0,0,1 c=0+-0"] +
+                    [gen_uqsort(rng, n, k) for n in (2, 3, 7, 64, 249) for k in ("order", "random")]))
     B.append(E.Case("b-times", ["utimes 100 99 /c17/w/bt/x", "utimes 100 100 /c17/w/bt/x", "utimes 100 101 /c17/w/bt/x",
                                 "utimes 100 none /c17/w/bt/x"]))
     for k, script in enumerate([["nothing"], ["edit-inc"], ["touch-inh"], ["simul-restart"], ["equal-inc", "touch-inc"],
@@ -617,6 +656,8 @@ def histogram(cases, impl):
                 h["switch_tables"] += 1
             elif t[0] == "R":
                 h["call_results"] += 1
+            elif t[0] == "qs":
+                h["uqsort"] = h.get("uqsort", 0) + 1
             elif t[0] == "ft":
                 h["usort"] += 1
             elif t[0] == "sw":
